@@ -5,4 +5,4 @@ CONSTANTS
   Shifts = {0, 1}
 INVARIANT TypeOK
 INVARIANT LayoutSound
-INVARIANT GbBytesParserOkIffSingleRecord
+INVARIANT GbBytesParserOk
